@@ -26,7 +26,19 @@ RULE = ('col: all column labels of length<=2 in upper case + the 26 lower-case l
         '(thorough x5) label look-alikes whose letters part holds one of 7 non-ASCII characters that case mapping turns into '
         'ASCII letters (30 % also as a range) - no event may be raised; 150*scale ASCII one-label formulas and 250*scale sums of '
         '2..3 references to one address in different $ patterns and cases - exactly one cell event per reference with the '
-        'upper-cased label, its recomposition and its $ flags. All kinds but formula are compared with the model (label: also on '
+        'upper-cased label, its recomposition and its $ flags (the cell listener reads the parts through the tuple protocol of '
+        'Cell, row, col = cell, and checks that they are the very objects cell.row / cell.col / cell[0] / cell[1] give); 120*scale '
+        'formulas + 8 fixed (LOG10, log10, Atan2, $LOG$10, ATAN$2, LOG10+A1, SUM(LOG9:LOG10), ATAN2:ATAN2) whose labels spell '
+        'function names read from the live registry (45 %: a label-shaped name such as LOG10 / ATAN2, 30 % of these with the row '
+        'one off; else an alphabetic ASCII name of at most 4 letters + a row below 300; 30 % in one of the four $ patterns, 40 % in lower case or '
+        'capitalised), 70 % alone or as a sum of two, 30 % as corners of SUM(a:b) / a:b - judged like every other label; '
+        '250*scale (thorough x5) range formulas SUM(a:b) / a:b / sum(a:b) over labels of 1..4 letters from ABCDXYZabz, rows '
+        'below 30 / 1048577, four $ patterns (15 %: a:a): exactly one range event and no cell event, the two corners read by the '
+        'range listener through the tuple protocol (row, col = corner, the same objects as corner.row / corner.col) and reported '
+        'as label | recomposed parts | row index | column index | row $ | column $; expected: first corner = smaller row part and '
+        'smaller column part, second corner = the larger ones, each part with the $ marker it was written with (a formula is '
+        'judged as a range when, inside an optional SUM( ), it is two label-shaped strings around one colon; as a sum when every '
+        '+-separated part is label-shaped; other ASCII formulas are not judged). All kinds but formula are compared with the model (label: also on '
         'non-ASCII text). Non-trivial = the implementation returns something other than -1 / empty / []; formula cases always '
         'count. When a proof or the correspondence broke: indices within 30 of a disagreeing one, both cases of a disagreeing '
         'column label, and the whole generator at scale 20.')
@@ -34,14 +46,21 @@ TRUSTED = ['CPython str.upper/str.find/int()/str() on ASCII (modelled by hand in
            'the regular expression engine `re` for LABEL_EXTRACT_REGEXP (matcher written by hand for the generated pattern; '
            'Props/C19.regexp_is_the_modelled_one pins the pattern text)',
            'pre / formula cases: lexer, grammar and evaluator of hotxlfp.Parser are the route to the label functions and are not '
-           'judged themselves (the results of the formulas are ignored; one parser is shared by the whole run)']
+           'judged themselves (the results of the formulas are ignored; one parser is shared by the whole run)',
+           'the function-name labels are drawn from hotxlfp.formulas.dispatcher._registry_ of the live code (a fixed list of 19 '
+           'names when the registry cannot be read)']
 ASSUMPTIONS = ['column_label_to_index is compared on ASCII input only (str.upper of non-ASCII text is library behaviour)',
                'labels with a zero row or leading zeros (A0, A01) are neither required to parse nor required to be rejected',
                'a label is $?letters$?digits over ASCII letters and digits, row >= 1: it must decompose to (row-1, bijective base-26 '
                'column, the two $ flags) and recompose to its upper-case spelling; every other string (but the zero-row / leading-zero '
                'ones) must give []; negative column indices and the rowlabel strings are not judged by the oracle',
                'a formula that is a label (or a sum of labels) raises one callCellValue event per reference; a string whose letters '
-               'part is not ASCII letters is no cell reference even if str.upper() would make it one']
+               'part is not ASCII letters is no cell reference even if str.upper() would make it one; a label that spells the '
+               'name of a registered function (LOG10, ATAN2, SUM5) and is written without parentheses is a cell like any other',
+               'a formula a:b or SUM(a:b) over two labels raises exactly one callRangeValue event and no callCellValue event; the '
+               'corners handed to the listener are Cells whose tuple protocol (row, col = cell) gives the parts their attributes '
+               'give; the first corner carries the smaller row part and the smaller column part (on a tie the one written first), '
+               'the second the others, each part keeping its own $ marker']
 EXHAUSTIVE = {'quick': False, 'thorough': True}
 
 UP = string.ascii_uppercase
